@@ -166,6 +166,25 @@ func (e *Enc) runHooksNamed(when, name string, ord int, at posser, args []Term, 
 
 func (e *Enc) execGhostStmt(se *specEnv, st GhostStmt, what string, pos token.Pos) error {
 	switch st.Kind {
+	case "rewrite":
+		val, ok := se.debugValue(st.Target)
+		if !ok {
+			return fmt.Errorf("%s:%d: rewrite: no SSA value for local %q", e.fc.File, st.Line, st.Target)
+		}
+		cur, ok := e.vals[val]
+		if !ok {
+			return fmt.Errorf("%s:%d: rewrite: local %q is not defined at this point", e.fc.File, st.Line, st.Target)
+		}
+		nv, err := se.eval(st.Value)
+		if err != nil {
+			return fmt.Errorf("%s:%d: rewrite: %v", e.fc.File, st.Line, err)
+		}
+		nt := nv.t
+		if cur.Sort == SReal {
+			nt = ToReal(nt)
+		}
+		e.oblige("rewrite", st.Label, st.Props, Eq(cur, nt), what+": "+st.Text, pos)
+		e.vals[val] = nt
 	case "assume":
 		t, err := se.evalBool(st.Value)
 		if err != nil {
